@@ -46,6 +46,12 @@ def execute_task(task: dict) -> dict:
         case["exclude"] = list(task.get("exclude") or [])
     res = mod.run_case(case)
     out["result"] = res
+    import hashlib
+
+    out["digest"] = hashlib.sha256(json.dumps(
+        {k: res.get(k) for k in ("status", "violation", "probes", "fired", "ticks", "compared", "sig",
+                                 "events", "refusal", "source", "sources")},
+        sort_keys=True, default=str).encode()).hexdigest()[:16]
     if res.get("status") in ("violation",) or task.get("want_case"):
         out["case"] = case
     return out
